@@ -93,6 +93,11 @@ func c04Run(hseed int64, relaxed bool, v c04Variant) (*c04Result, error) {
 	w.prof.Composite = true
 	w.prof.PSome = 15
 	w.prof.LongTypes = hseed%3 == 0
+	if hseed%5 == 2 {
+		// the default digester (process-wide digester pool) meeting first-level collisions: a hash-input provider that
+		// covers only part of the key
+		w.cb.HipClasses = 25
+	}
 	owners := []atree.Address{addrOf(1, 0), addrOf(2, 0), addrOf(1, 0xF0), addrOf(0, 0x01)}
 	// slab indexes start just below multi-byte boundaries so that ordering by (owner, index) is exercised
 	w.led.index[owners[0]] = 250
@@ -1190,6 +1195,49 @@ func runC16(c *CaseCtx) *CaseResult {
 					if berr == nil || merr == nil {
 						return "", viol("parallel-error", "batch build with a failing element stream returned nil (array %v, map %v)", berr, merr)
 					}
+					// ... and batch builds in which a VALUE cannot be turned into a storable (Value.Storable fails), for a
+					// non-colliding and for a colliding key
+					for _, badAt := range []int{1, 7} {
+						k = 0
+						_, aerr := atree.NewArrayFromBatchData(w.st, w.addr, TI{ID: 3}, func() (atree.Value, error) {
+							if k++; k > 12 {
+								return nil, nil
+							}
+							if k == badAt {
+								return BlobValue{ID: 4242, Pad: 20, FailStorable: true}, nil
+							}
+							return tu.Uint64Value(uint64(k)), nil
+						})
+						src2, err := atree.NewMap(w.st, w.addr, atree.NewDefaultDigesterBuilder(), TI{ID: 3})
+						if err != nil {
+							return "", viol("harness", "%v", err)
+						}
+						for i := 0; i < 12; i++ {
+							if _, err := src2.Set(w.cb.Compare, w.cb.HashInput, tu.Uint64Value(uint64(i)), tu.Uint64Value(uint64(i))); err != nil {
+								return "", viol("harness", "%v", err)
+							}
+						}
+						it2, _ := src2.ReadOnlyIterator()
+						k = 0
+						_, m2err := atree.NewMapFromBatchData(w.st, w.addr, atree.NewDefaultDigesterBuilder(), TI{ID: 3}, w.cb.Compare, w.cb.HashInput, src2.Seed(),
+							func() (atree.Value, atree.Value, error) {
+								kk, vv, err := it2.Next()
+								if err != nil || kk == nil {
+									return nil, nil, err
+								}
+								if k++; k == badAt {
+									return kk, BlobValue{ID: 4242, Pad: 20, FailStorable: true}, nil
+								}
+								return kk, vv, nil
+							})
+						if aerr == nil || m2err == nil {
+							return "", viol("parallel-error", "batch build with a value whose Storable fails returned nil (array %v, map %v)", aerr, m2err)
+						}
+						// the source map is disposed of again
+						_ = src2.PopIterate(func(atree.Storable, atree.Storable) {})
+						_ = w.st.Remove(src2.SlabID())
+					}
+
 					w.logOp("batch builds with a failing stream: %v / %v", berr != nil, merr != nil)
 				}
 				if i%55 == 0 {
